@@ -2,7 +2,7 @@
 from .facts import AnalysisError
 from .mir import Callee
 from .report import RuleResult
-from .sym import Exec, norm, show, strip, subterms, calls_in
+from .sym import Exec, norm, show, strip, subterms, calls_in, event_type_args
 from .cw import const_of, _uncast
 from .rules_cw import _is_null_test, closure_name
 
@@ -60,6 +60,20 @@ def _cell_get(term, field):
     t = term
     return (isinstance(t, tuple) and t[0] == "call" and norm(t[1]) == "std::cell::Cell::get"
             and isinstance(strip(t[2][0]), tuple) and strip(t[2][0])[0] == "field" and strip(t[2][0])[1] == field)
+
+
+def _set_is_noop(p, i, field, v):
+    """the Cell::set at event i writes the value the cell is known (by a later test of the read just before it) to
+    have held already"""
+    for j in range(i - 1, -1, -1):
+        e = p.events[j]
+        if e.kind != "call":
+            continue
+        if e.ntarget == "std::cell::Cell::set" and field in show(e.args[0]):
+            return False
+        if e.ntarget == "std::cell::Cell::get" and _cell_get(e.result, field):
+            return any(q.kind == "cond" and q.term == e.result and q.value == v for q in p.events[j:])
+    return False
 
 
 def _cmp_cell(e, field, op, c):
@@ -514,6 +528,9 @@ def rule_collect_outermost(ctx):
             continue
         sets = [(i, const_of(e.args[1])) for i, e in enumerate(p.events) if e.kind == "call" and
                 e.ntarget == "std::cell::Cell::set" and "Local.collecting" in show(e.args[0])]
+        # `collecting.replace(true)` on a path that then finds the old value true changes nothing: the flag belongs
+        # to the outer unpin, which clears it
+        sets = [(i, v) for (i, v) in sets if not _set_is_noop(p, i, "Local.collecting", v)]
         if sets:
             ok = sets[-1][1] == 0
             r.instance("collecting cleared before unpin returns", ok)
@@ -1002,7 +1019,7 @@ def rule_deferred_inline(ctx):
         if len(writes) != 1:
             r.violate(b.name, "write", "expected exactly one ptr::write per path", b.loc(0))
             continue
-        wty = writes[0].callee.type_args()[0]["ty"]
+        wty = event_type_args(writes[0])[0]
         inline = not wty.startswith("std::boxed::Box<")
         conds = [e for e in p.events if e.kind == "cond" and isinstance(e.term, tuple) and e.term[0] == "bin"]
         size_ok = align_ok = None
@@ -1228,8 +1245,14 @@ def rule_list(ctx):
           "fetch_or": {"ebr_impl::sync::list::Entry::delete": "the deletion mark"},
           "compare_exchange": {nx.name: "unlink"}, "compare_exchange_weak": {}}
     nwr = 0
+    # closures and helpers introduced by refactoring are read inside the functions that reach them
+    cands = set()
     for name, b in prog.bodies.items():
-        for p in ctx.ex.paths(b) if any(norm(c.target or "").startswith("ebr_impl::pointers::RawAtomic::") for (_, _, c) in b.calls()) else []:
+        if any(norm(c.target or "").startswith("ebr_impl::pointers::RawAtomic::") for (_, _, c) in b.calls()):
+            cands.update(prog.path_roots(name))
+    seen_wr = {}
+    for name in sorted(cands):
+        for p in ctx.ex.paths(prog.body(name)):
             for e in p.events:
                 if e.kind != "call" or not norm(e.target or "").startswith("ebr_impl::pointers::RawAtomic::"):
                     continue
@@ -1239,7 +1262,9 @@ def rule_list(ctx):
                 if outer_field(e.args[0]) != "Entry.next":
                     continue
                 nwr += 1
-                home = prog.home(name)
+                home = prog.home(e.body.name)
+                if home in prog.auto_inline():
+                    home = name
                 ok = home in WR.get(op, {})
                 if op == "store" and ok:
                     # the entry written must be the one being inserted (derived from the `container` parameter)
